@@ -8,19 +8,21 @@ import (
 )
 
 type SourceInList struct {
-	document *gedcom.Document
-	source   *gedcom.SourceNode
+	document  *gedcom.Document
+	source    *gedcom.SourceNode
+	placesMap map[string]*place
 }
 
-func NewSourceInList(document *gedcom.Document, source *gedcom.SourceNode) *SourceInList {
+func NewSourceInList(document *gedcom.Document, source *gedcom.SourceNode, placesMap map[string]*place) *SourceInList {
 	return &SourceInList{
-		document: document,
-		source:   source,
+		document:  document,
+		source:    source,
+		placesMap: placesMap,
 	}
 }
 
 func (c *SourceInList) WriteHTMLTo(w io.Writer) (int64, error) {
 	return core.NewTableRow(
-		core.NewTableCell(NewSourceLink(c.source)),
+		core.NewTableCell(NewSourceLink(c.document, c.source, c.placesMap)),
 	).WriteHTMLTo(w)
 }
